@@ -64,10 +64,23 @@ MANIFEST = dict(
          "with '#' or '//' after leading white space can be removed anywhere). Hypothesis Exact of the INI value theorems: no numeric or "
          "white-space character outside ASCII, decimals with at most 15 significant digits, at most 7 after the point, zero or >= 0.0001 "
          "(otherwise round(float(x), 7) is not modelled: the model answers unsupported). Examples kept as theorems: C17_nonascii_example, "
-         "C17_list_none_cex, C17_maxsplit_escape_example.",
+         "C17_list_none_cex, C17_maxsplit_escape_example. OPEN FINDING C17-j (maxsplit counts escaped delimiters): the theorems above "
+         "describe split_with_escape through the pieces of str.split(delimiter, maxsplit), i.e. they took the budget rule over from "
+         "the code; the character-level reference splitRef / refAux (Model/Esc.lean: one pass, an escaped delimiter stays in its "
+         "item and uses up no split, at most maxsplit REAL cuts) is what the property asks for with maxsplit; "
+         "C17_split_maxsplit_real_cuts_stmt (splitWithEscape = splitRef for every text, delimiter, maxsplit, escape, trim) is kept "
+         "visible and is FALSE on the pinned code: C17_split_maxsplit_real_cuts_cex ('\\;;' with maxsplit 1 gives [';;'], the "
+         "reference [';', '']; 'a\\;b;c;d' with maxsplit 2 gives ['a;b', 'c;d'], the reference ['a;b', 'c', 'd']). PROVED outside "
+         "the class: C17_split_real_cuts_partial - for every text, non-empty delimiter, maxsplit, escape character and trim flag "
+         "such that no escaped delimiter is met while real cuts are limited and still allowed (escWithin, decided by the same "
+         "scan as the reference) splitWithEscape = splitRef; C17_split_real_cuts_no_maxsplit - without maxsplit always "
+         "(refAux_eq_specG: the character scan equals the walk specG over the pieces of the limited split). So the defect is "
+         "located exactly in the class of C17-j. On the implementation: stream esc.ref (Lean splitRef = its Python transcription "
+         "ref_split), esc.cls (Lean escWithin = the harness classifier) and evaluators spec / real_cuts (the code = the reference; "
+         "inputs in the class of C17-j are counted, not reported).",
     note="unescape is modelled as latin-1/backslashreplace encoding followed by CPython's unicode_escape decoder (validated by stream esc.unesc); "
          "upper()/lower() only for ASCII (otherwise unsupported); str.isnumeric() above U+007F is a table (Unicode 15.0) validated at every boundary "
-         "by stream ini.isnum; floats are opaque lexemes. No open finding; fixes proposed in this round: C17-e (non-ASCII text through unescape), "
+         "by stream ini.isnum; floats are opaque lexemes. Open finding: C17-j (escape character + maxsplit >= 1 + an escaped delimiter among the first maxsplit delimiters; fixes/C17-j.proposed.patch measured equal to the reference but not applied - the loop proofs are not moved yet); fixes proposed in this round: C17-e (non-ASCII text through unescape), "
          "C17-g ('KEY +=VALUE' with a blank before '+='); fourth wave: C17-h (unescape keeps None / numbers: a key that got the default value no longer makes unescape raise), C17-i (deserialize_list_of_lists hands parse_empty to the sublists). "
          "Default values that are numbers / bools are outside the model (Option Str) and covered by the evaluators default and dict_roundtrip/flags only.",
     design_ref="5/C17",
@@ -112,6 +125,68 @@ def split_spec(e, d, tr, pieces):
             out.append(pre + (halve(e, p) if tr else p))
             pre = ""
     return out
+
+
+def ref_split(s, d, m, e, tr):
+    """CHARACTER-LEVEL reference of split_with_escape (Lean `splitRef`, tied by stream esc.ref): one pass, left to right; an
+    occurrence of the delimiter preceded - inside the current item - by an odd run of escapes stays in the item (that escape
+    dropped) and uses up no split; otherwise it is a REAL cut, at most maxsplit of them (falsy maxsplit: no limit); what follows
+    the last allowed cut is the last item, raw; the trailing run of every item is halved when trimming"""
+    if d == "":
+        raise ValueError("empty separator")
+    if not e:
+        return s.split(d, m if m else -1)
+    items, cur, i, cuts = [], "", 0, 0
+    while i < len(s):
+        if s.startswith(d, i):
+            if m and cuts >= m:
+                cur += s[i:]
+                break
+            if run_len(e, cur) % 2:
+                cur = cur[:-1] + d
+            else:
+                items.append(halve(e, cur) if tr else cur)
+                cur = ""
+                cuts += 1
+            i += len(d)
+        else:
+            cur += s[i]
+            i += 1
+    items.append(halve(e, cur) if tr else cur)
+    return items
+
+
+def esc_within(s, d, m, e):
+    """Lean `escWithin e d (limOf m) 0 [] s` (tied by stream esc.cls): scanning like the reference, an escaped delimiter is met
+    while real cuts are limited and still allowed"""
+    if not (e and d and m):
+        return False
+    cur, i, left = "", 0, m
+    while i < len(s):
+        if s.startswith(d, i):
+            if left == 0:
+                return False
+            if run_len(e, cur) % 2:
+                return True
+            cur, left, i = "", left - 1, i + len(d)
+        else:
+            cur += s[i]
+            i += 1
+    return False
+
+
+def maxsplit_escape_class(c):
+    """class of the open finding C17-j: an escape character is given, maxsplit >= 1, and one of the delimiters met while real cuts
+    are still allowed is escaped (the item before it ends with an odd run of escapes).  Outside this class the model is PROVED
+    equal to the reference (C17_split_real_cuts_partial)."""
+    s, d, m, e = c.get("s"), c.get("d"), c.get("m"), c.get("e")
+    if not (isinstance(s, str) and isinstance(d, str) and d and e and len(e) == 1 and isinstance(m, int) and m >= 1):
+        return False
+    return esc_within(s, d, m, e)
+
+
+def known_real_cuts(c, detail=None):
+    return "C17-j" if maxsplit_escape_class(c) else None
 
 
 def okstrs(xs):
@@ -250,6 +325,23 @@ def spec_py(c):
     return okstrs(split_spec(c["e"], c["d"], c["tr"], c["s"].split(c["d"], c["m"] or -1)))
 
 
+def ref_line(c):
+    return "esc.ref %s %s %d %s %s" % (enc_str(c["s"]), enc_str(c["d"]), c["m"] or 0, optc(c["e"]), tf(c["tr"]))
+
+
+def ref_py(c):
+    r = core.call(ref_split, c["s"], c["d"], c["m"], c["e"], c["tr"])
+    return okstrs(r[1]) if r[0] == "ok" else "err " + r[1]
+
+
+def cls_line(c):
+    return "esc.cls %s %s %d %s" % (enc_str(c["s"]), enc_str(c["d"]), c["m"] or 0, enc_str(c["e"]))
+
+
+def cls_py(c):
+    return "ok T" if esc_within(c["s"], c["d"], c["m"], c["e"]) else "ok F"
+
+
 def dlist_line(c):
     return "esc.dlist %s %s %s %s" % (enc_str(c["s"]), enc_str(c["d"]), tf(c["pe"]), optc(c["e"]))
 
@@ -364,14 +456,27 @@ def ddu_impl(c):
 # C: the statement on the implementation
 # ---------------------------------------------------------------------------
 def check_spec(c):
-    """split_with_escape = splitSpec (delimiter non-empty, not ending with the escape character)"""
+    """split_with_escape = the character-level reference (delimiter non-empty, not ending with the escape character): an
+    escaped delimiter stays inside its item, every other delimiter is a cut, at most maxsplit REAL cuts.  (Outside the class
+    of C17-j the reference equals Lean's splitSpec over the pieces of str.split(d, maxsplit): streams esc.spec / esc.split.)"""
     swe = impl()[0]
-    want = split_spec(c["e"], c["d"], c["tr"], c["s"].split(c["d"], c["m"] or -1))
+    want = ref_split(c["s"], c["d"], c["m"], c["e"], c["tr"])
     r = core.call(swe, c["s"], c["d"], c["m"], c["e"], c["tr"])
     if r[0] != "ok":
         return {"raised": r[1], "want": want}
     if r[1] != want:
         return {"got": r[1], "want": want}
+    return None
+
+
+def check_real_cuts(c):
+    """every delimiter, every escape character (None / '' included), every maxsplit, the empty delimiter's ValueError included:
+    split_with_escape = the character-level reference"""
+    swe = impl()[0]
+    want = core.call(ref_split, c["s"], c["d"], c["m"], c["e"], c["tr"])
+    r = core.call(swe, c["s"], c["d"], c["m"], c["e"], c["tr"])
+    if (r[0], list(r[1]) if r[0] == "ok" else r[1]) != (want[0], want[1]):
+        return {"got": list(r), "want": list(want)}
     return None
 
 
@@ -956,6 +1061,7 @@ def check_total(c):
 
 
 EVALS["total"] = check_total
+EVALS["real_cuts"] = check_real_cuts
 
 
 def _base(ev):
@@ -971,6 +1077,9 @@ def shrink_failure(evaluator, case):
     def still(c):
         if _base(evaluator).startswith("ini_") and (not isinstance(c, dict) or c.get("eq") != case.get("eq")):
             return False  # the equal tag is an option of the case: never shrunk
+        if _base(evaluator) in ("spec", "real_cuts") and (c.get("m") != case.get("m") or c.get("d") != case.get("d") or c.get("e") != case.get("e") or c.get("tr") != case.get("tr")
+                                                         or maxsplit_escape_class(c)):
+            return False  # options are never shrunk; a shrunk text must stay outside the class of the open finding C17-j
         return valid(c) and fn(c) is not None
 
     return core.shrink(case, still)
@@ -1003,6 +1112,8 @@ def safe_seps(d, eq):
 
 VALID = {
     "spec": _spec_valid,
+    "real_cuts": lambda c: isinstance(c.get("s"), str) and isinstance(c.get("d"), str) and (not c.get("e") or len(c["e"]) == 1) and isinstance(c.get("tr"), bool)
+    and (c.get("m") is None or isinstance(c["m"], int)),
     "plain": lambda c: isinstance(c.get("s"), str) and isinstance(c.get("d"), str) and (not c.get("e") or (len(c["e"]) == 1 and c["e"] not in c["s"])),
     "total": lambda c: isinstance(c.get("s"), str) and c.get("d") and (not c.get("e") or len(c["e"]) == 1),
     "independent": lambda c: c.get("d") and c.get("e") and len(c["e"]) == 1 and not c["d"].endswith(c["e"]) and run_len(c["e"], c["left"].split(c["d"])[-1]) % 2 == 0,
@@ -1055,7 +1166,7 @@ def replay(rp):
 
 
 IMPLS = {"ini.value": ini_value_impl, "ini.isnum": ini_isnum_impl, "ini.parse": ini_parse_impl, "ini.rt": ini_rt_impl, "ini.read": ini_read_impl,
-         "esc.split": split_impl, "esc.spec": spec_py, "esc.dlist": dlist_impl, "esc.kv": kv_impl, "esc.ddict": ddict_impl,
+         "esc.split": split_impl, "esc.spec": spec_py, "esc.ref": ref_py, "esc.cls": cls_py, "esc.dlist": dlist_impl, "esc.kv": kv_impl, "esc.ddict": ddict_impl,
          "esc.ser": ser_impl, "esc.unesc": unesc_impl, "esc.rt": rt_impl, "esc.rtf": rtf_impl, "esc.ddu": ddu_impl,
          "esc.dlol": dlol_impl, "esc.dfix": dfix_impl, "esc.gvt": gvt_impl}
 
@@ -1103,7 +1214,24 @@ def run(ctx):
     spcases = [c for c in scases + ex if c["e"] and c["d"]]
     ctx.correspond("esc.spec", spcases, spec_line, spec_py, nontrivial=nt_split)
     # ---- C: split = spec, plain, total
-    ctx.evaluate("spec", [c for c in spcases if _spec_valid(c)], check_spec, nontrivial=nt_split)
+    ctx.evaluate("spec", [c for c in spcases if _spec_valid(c)], check_spec, in_known=known_real_cuts, nontrivial=nt_split)
+    # ---- the character-level reference: Lean's splitRef = its Python transcription (B), the code = the reference (C);
+    #      maxsplit 1..4 exhaustively on short texts; failures inside the class of the open finding C17-j are counted, not reported
+    rng = ctx.rng("real-cuts")
+    rc = list(scases) + edge
+    for k in range((5 if ctx.tier == "quick" else 7) + 1):
+        for tup in itertools.product("a;\\", repeat=k):
+            for m in (1, 2, 3, 4):
+                rc.append({"s": "".join(tup), "d": ";", "m": m, "e": "\\", "tr": (k + m) % 2 == 0})
+    for _ in range(n // 2):
+        c = gen_split_case(rng)
+        c["m"] = rng.choice([1, 1, 2, 3, 5])
+        c["s"] = gen_text(rng, c["d"], c["e"], rng.choice([6, 10, 16, 24]))
+        rc.append(c)
+    ctx.correspond("esc.ref", rc, ref_line, ref_py, nontrivial=nt_split)
+    ctx.correspond("esc.cls", [c for c in rc if c["e"] and c["d"]], cls_line, cls_py, nontrivial=lambda c: nt_split(c) and bool(c["m"]))
+    ctx.evaluate("real_cuts", rc, check_real_cuts, in_known=known_real_cuts, nontrivial=lambda c: nt_split(c) and bool(c["m"]))
+    ctx.extra["real_cuts_in_class_C17j"] = sum(1 for c in rc if maxsplit_escape_class(c))
     plain = []
     rng = ctx.rng("plain")
     for _ in range(n // 2):
